@@ -271,8 +271,11 @@ def leader_presets(params, rng):
 
     v["attitude/number_of_points"] = f"{p['n_att']:4d}"
     v["data_quality_summary/number_of_channels"] = f"{p['n_channels']:4d}"
+    # fraction digits of the decimal-seconds texts (3 = milliseconds ... 6 = microseconds)
+    digits = inst.get("frac_digits", 3)
+    frac = f"{ms:03d}{inst.get('us', 0):03d}"[:digits]
     v["dataset_summary/scene_center_time"] = V.pad(
-        f"{year:04d}{month:02d}{day:02d}{hh:02d}{mm:02d}{ss:02d}{ms:03d}", 32, rng, allow_left=False
+        f"{year:04d}{month:02d}{day:02d}{hh:02d}{mm:02d}{ss:02d}{frac}", 32, rng, allow_left=False
     )
     v["platform_position/datetime_of_first_point/date"] = V.pad(
         f"{year:04d} {month:02d} {day:02d}", 12, rng
@@ -280,7 +283,7 @@ def leader_presets(params, rng):
     v["platform_position/datetime_of_first_point/day_of_year"] = f"{inst['doy']:4d}"
     # seconds of the day as decimal text (ms resolution keeps the float exact enough: see model)
     v["platform_position/datetime_of_first_point/seconds_of_day"] = V.pad(
-        f"{sec_of_day_ms // 1000}.{sec_of_day_ms % 1000:03d}", 22, rng
+        f"{sec_of_day_ms // 1000}.{frac}", 22, rng
     )
     v["platform_position/occurrence_flag_of_a_leap_second"] = str(rng.randrange(2))
     v["facility_related_data_5/prf_switching_flag"] = f"{rng.randrange(2):4d}"
